@@ -46,14 +46,19 @@ NODE_CLASSES = (
 def _from_dependency(e: BaseException) -> bool:
     """True if the innermost frame of the exception is inside skimage / scipy / numpy or
     the regionprops extension (degenerate mask the dependency cannot measure)."""
-    tb = e.__traceback__
-    last = None
-    while tb is not None:
-        last = tb.tb_frame.f_code.co_filename
-        tb = tb.tb_next
-    if last is None:
-        return False
-    return any(x in last for x in ("/skimage/", "/scipy/", "/numpy/", "_regionprops_extended"))
+    seen = 0
+    while e is not None and seen < 6:
+        tb = e.__traceback__
+        last = None
+        while tb is not None:
+            last = tb.tb_frame.f_code.co_filename
+            tb = tb.tb_next
+        if last is not None and any(x in last for x in ("/skimage/", "/scipy/", "/numpy/", "_regionprops_extended")):
+            return True
+        # a rollback that fails after a dependency error keeps the latter as its context
+        e = e.__cause__ or e.__context__
+        seen += 1
+    return False
 
 
 def _alarm_handler(signum, frame):
